@@ -17,7 +17,11 @@ def _gs_requires(C):
 
 def _gs_ensures(C, res):
     k = z3.Int('k')
-    cl = [('segments_carry_the_seed_peak', forall(k, z3.Implies(z3.And(rng(0, k, res.len), res[k].positions.len > 0), res[k].peak.ref == C.peak.ref), [res.raw(k).t]))]
+    cl = [('segments_carry_the_seed_peak', forall(k, z3.Implies(z3.And(rng(0, k, res.len), res[k].positions.len > 0), res[k].peak.ref == C.peak.ref), [res.raw(k).t])),
+          ('every_nonempty_segment_has_an_aligned_pair', forall(k, z3.Implies(z3.And(rng(0, k, res.len), res[k].positions.len > 0),
+                                                                              res[k].alignedPositions.len >= 1), [res.raw(k).t])),
+          ('every_nonempty_segment_scores_the_sum_of_its_positions', forall(k, z3.Implies(z3.And(rng(0, k, res.len), res[k].positions.len > 0),
+                                                                              res[k].segmentScore == C._e.score_sum(res[k].positions.v)), [res.raw(k).t]))]
     if C.has('F'):
         Fv = C.F
         cl += [('search_window_starts_at_the_seed', Fv.referenceStartPosition == C.peak.position),
@@ -32,3 +36,50 @@ getSegments = FunctionSpec(
          "(ascending label lists, non-positive unmatched penalty so that unpaired positions do not score, positive minScore) is discharged at the call sites")
 
 SPECS = [getSegments]
+
+
+# ------------------------------------------------------------------ Aligner.align (one candidate row from a list of seed peaks, or from one peak)
+from specs.common import Abs, is_cls
+from specs.conflicts import ORIGIN
+ROW = OBJ('AlignmentResultRow')
+PEAKIDX = z3.Function('seed_peak_index', Ref, z3.IntSort(), z3.IntSort())
+
+
+def _align_ensures(which):
+    def ens(C, res):
+        e = C._e
+        R = res.segments
+        a = Abs(R)
+        T = z3.Int('alT')
+        seg = a[T]
+        npeaks = C.peaks.len if which == 'list' else z3.IntVal(1)
+        peak_at = (lambda k: C.peaks.raw(k).t) if which == 'list' else (lambda k: C.peaks.ref)
+        if C.proving:
+            fl = C.note('last_flatten')
+            S = C.F.segments
+            kk = lambda T: fl['ci'](ORIGIN(R.v.arrs[0], S.v.arrs[0], S.off, T))
+        else:
+            kk = lambda T: PEAKIDX(res.ref, T)
+        body = z3.Implies(z3.And(a.inside(T), seg.positions.len > 0),
+                          z3.And(0 <= kk(T), kk(T) < npeaks, seg.peak.ref == peak_at(kk(T)),
+                                 seg.segmentScore == e.score_sum(seg.positions.v)))
+        return [('ids_lengths_and_strand_are_those_of_the_two_maps', z3.And(
+                    res.queryId == C.query.moleculeId, res.referenceId == C.reference.moleculeId, res.queryLength == C.query.length,
+                    res.referenceLength == C.reference.length, res.reverseStrand == C.isReverse)),
+                ('confidence_is_the_sum_of_the_segment_scores', res.confidence == e.score_sum(R.v, 'segmentScore')),
+                ('every_nonempty_segment_carries_one_of_the_seed_peaks_and_scores_the_sum_of_its_positions',
+                 z3.ForAll([T], body) if C.proving else z3.ForAll([T], body, patterns=[z3.Select(R.v.arrs[0], T)]))]
+    return ens
+
+
+_align_note = ("(partial correctness) the candidate row of one reference/query/strand: segments of all seed peaks -> conflict resolution -> row; ids, lengths and "
+               "strand are those of the two maps, Confidence = sum of the segment scores, every non-empty segment carries one of the given seed peaks and its "
+               "score is the sum of the scores of its positions (whatever conflict resolution removed)")
+align_list = FunctionSpec(
+    file=F, qualname='Aligner.align', variant='peaks', params=dict(self=ALIGNER, reference=OMAP, query=OMAP, peaks=LIST(PEAK), isReverse=BOOL), returns=ROW,
+    requires=_gs_requires, ensures=_align_ensures('list'), may_raise={'IndexError'}, serves=('C04', 'C01', 'C02'), note=_align_note)
+align_single = FunctionSpec(
+    file=F, qualname='Aligner.align', variant='peak', params=dict(self=ALIGNER, reference=OMAP, query=OMAP, peaks=PEAK, isReverse=BOOL), returns=ROW,
+    requires=_gs_requires, ensures=_align_ensures('single'), may_raise={'IndexError'}, serves=('C04', 'C01', 'C02'), note=_align_note)
+
+SPECS += [align_list, align_single]
